@@ -164,7 +164,11 @@ def run_brew(case, tmp, train_fdr=0.23, override=True, max_iter=3, estimator=Non
             if case.get("fail_marks") and estimator is None and case["est"] in ("Lin", "Proba"):
                 # markers = decoy rows of the first file; a fold holding one of them out fails to train
                 decoys = np.flatnonzero(~np.asarray(metas[0]["is_target"], dtype=bool))
-                est = recorder.LinFailSome(log=logname, markers=tuple(sorted({int(decoys[m % len(decoys)]) for m in case["fail_marks"]})))
+                marks = tuple(sorted({int(decoys[m % len(decoys)]) for m in case["fail_marks"]}))
+                warm = bool(case.get("single_trained") and not case.get("sweep_before"))
+                # with a warm start the earlier analysis trains every fold; the markers are armed for the observed run only, whose
+                # re-training then "performs worse" in the folds that hold a marker out (brew falls back to the model it was given)
+                est = recorder.LinFailSome(log=logname, markers=() if warm else marks)
             # a recording (identity) scaler: the scaler is part of a fold's model and is fitted on that fold's training rows
             model = recorder.make_model(est, train_fdr=train_fdr, max_iter=max_iter, override=override, shuffle=True,
                                         scaler=recorder.RecScaler(identity=True))
@@ -181,6 +185,8 @@ def run_brew(case, tmp, train_fdr=0.23, override=True, max_iter=3, estimator=Non
                                   allowed=ALLOWED_BREW, sig="brew-first-analysis")
                 if pre[1] is not None and all(m.is_trained for m in pre[1]):
                     model = pre[1][0]
+                    if isinstance(model.estimator, recorder.LinFailSome):
+                        model.estimator.markers = marks
             except Rejected:
                 pass
             recorder.drop_log(logname)
@@ -210,7 +216,7 @@ def run_brew(case, tmp, train_fdr=0.23, override=True, max_iter=3, estimator=Non
     finally:
         recorder.drop_log(logname)
     return {"dfs": dfs, "metas": metas, "models": models, "scores": scores, "descs": descs, "events": events, "cap": cap,
-            "error": error}
+            "error": error, "given_token": getattr(getattr(model, "estimator", None), "__dict__", {}).get("token_")}
 
 
 def full_keys(df, meta):
